@@ -21,7 +21,7 @@ theorem centre_minimize_ok (ctx : SweepCtx k H qd numiter) (hm : 1 ≤ numiter) 
     (h : DInv H qd s c E) :
     ∃ en Aopt, minimizeLocalEnergy k (getBL s c) (getBR s c) (H.A.getD c zeroT4) (getA s c) numiter = .ok (en, Aopt) := by
   obtain ⟨⟨en, Aopt⟩, hr⟩ := minimize_isOk (k := k) (L := getBL s c) (R := getBR s c) (W := H.A.getD c zeroT4)
-    (cnorm_pos_flat3 ctx.norm (by rw [centre_frob ctx h]; exact one_pos)) hm (ctx.eigh _ _)
+    ctx.norm (cnorm_pos_flat3 ctx.norm (by rw [centre_frob ctx h]; exact one_pos)) hm (ctx.eigh _ _)
   exact ⟨en, Aopt, hr⟩
 
 /-- **the left-to-right loop body of a DMRG sweep returns** and keeps the invariants -/
